@@ -122,7 +122,7 @@ macro_rules! ord_laws {
     }};
 }
 
-// @harness name=ident_ord_toy251 props=C02 kind=complete bound="-" tier=quick backs="T7: laws_cmp::obeys_cmp::<Identifier<C>>() and cmp == numeric order; all triples of Toy251 identifiers, loop bound = encoding length 1" expect=pass
+// @harness name=ident_ord_toy251 props=C02,C04 kind=complete bound="-" tier=quick backs="T7: laws_cmp::obeys_cmp::<Identifier<C>>() and cmp == numeric order; all triples of Toy251 identifiers, loop bound = encoding length 1" expect=pass
 #[kani::proof]
 #[kani::unwind(3)]
 fn ident_ord_toy251() {
@@ -227,7 +227,7 @@ fn num_cmp64(a: u64, b: u64) -> Ordering {
     }
 }
 
-// @harness name=ident_ord_wide32 props=C01,C02 kind=complete bound="-" tier=quick backs="as ident_ord_wide16 for ALL pairs of non-zero 32-byte scalars (the width of five real suites): cmp == numeric order of the 256-bit little-endian value (high u128 first, then low u128)" expect=pass
+// @harness name=ident_ord_wide32 props=C01,C02,C04 kind=complete bound="-" tier=quick backs="as ident_ord_wide16 for ALL pairs of non-zero 32-byte scalars (the width of five real suites): cmp == numeric order of the 256-bit little-endian value (high u128 first, then low u128)" expect=pass
 #[kani::proof]
 #[kani::unwind(34)]
 fn ident_ord_wide32() {
